@@ -754,8 +754,14 @@ def c05_scenarios(tier):
                             out.append(("c05", {"shape": sh, "modes": [[t, c, m] for (t, c), m in sorted(modes.items())], "args": a, "commands": cmds,
                                                 "sequences": seqs, "checkpoint": cp, "changed": changed, "explicit": explicit, "deps": deps,
                                                 "defs": defs}, {}))
-        # the surroundings of a run: an earlier failed / successful run's records on disk, a listener attached
+        # an executable that dies by a signal (first target's first command / last target's last command)
         modes = all_x(ts, ["build", "test"])
+        for (kt, kc) in ((paths[0], "build"), (paths[-1], "test")):
+            for (explicit, deps) in ((None, False), (paths[-1:], True)):
+                a = ["-c", "build", "test"] + (["-t"] + explicit + ["--deps"] if explicit else [])
+                out.append(("c05", {"shape": sh, "modes": [[t, c, m] for (t, c), m in sorted(modes.items())], "args": a, "commands": ["build", "test"],
+                                    "sequences": None, "checkpoint": None, "changed": None, "explicit": explicit, "deps": deps, "sigkill": [[kt, kc]]}, {}))
+        # the surroundings of a run: an earlier failed / successful run's records on disk, a listener attached
         for ctx in ([["prior-failed"], ["listener"]] if tier == "quick" else [["prior-failed"], ["prior-ok"], ["listener"], ["prior-failed", "listener"]]):
             for (cp, changed, explicit, deps) in [(None, None, None, False), ("head", paths[-1:], None, False), (None, None, paths[-1:], True)]:
                 a = ["-c", "build", "test"] + (["-t"] + explicit + ["--deps"] if explicit else [])
@@ -797,6 +803,9 @@ def c05_task(desc):
                 r.mr("checkpoint", "update")
                 for t in desc["changed"] or []:
                     r.write(os.path.join(t, "changed2.txt"), "x\n")
+        for (t_, c_) in desc.get("sigkill") or []:
+            # this executable ends by a signal (no exit code)
+            r.set_script(t_, c_, ["out " + b"about to die\n".hex(), "kill 9"])
         ctx = desc.get("context") or []
         if "prior-failed" in ctx:
             # only the first invocation of that executable (the one of the earlier run) fails
